@@ -1217,4 +1217,61 @@ example : parseH2Response [(pStatus, [50, 48, 48])] = some (200, []) := by decid
 example : parseH2Response [(pStatus, [45, 50, 48, 48])] = none := by decide
 example : parseH2Response [(pStatus, [48, 50, 48, 48])] = none := by decide
 
+/-! ### audit round 6 (cross-audit by b-c04): non-vacuity witnesses where the hypotheses are NOT trivially true
+
+  `exBlock` above carries no content-length, so `ClLaw` / `hguard` hold there for the empty reason.  Below: a request
+  and a response WITH a content-length field and a body, the streamed guard with a non-empty body, an HTTP/1-sourced
+  request with Host + a connection-specific field, trailers, and the one place where a default argument matters. -/
+
+def auBlockCL : Block :=
+  [(pMethod, [80, 79, 83, 84]), (pScheme, sHttp), (pPath, [47]), (pAuthority, [97, 46, 98]), (sCL, [51])]
+def auReqCL : Req := ⟨[80, 79, 83, 84], sHttp, [97, 46, 98], [47], [(sCL, [51])]⟩
+
+example : h2ValidReq auBlockCL = true ∧ parseH2Request true auBlockCL = some auReqCL ∧
+    validateRequest auReqCL false = true ∧ h2ClOk false auBlockCL 3 = true := by decide
+-- the content-length law is derived, not vacuous: the filter is `[(content-length, "3")]` and the body has 3 bytes
+example : ClLaw auReqCL [71, 69, 84] :=
+  cl_law_from_h2_check true auBlockCL [71, 69, 84] auReqCL (by decide) (by decide) (by decide) (by intro h; cases h)
+example : auReqCL.fields.filter (nameIs sCL) = [(sCL, [51])] := by decide
+example : (h2ToH1 true auBlockCL [71, 69, 84]).map Ref.parse =
+    some (some [⟨[80, 79, 83, 84], [47], sHttp11, [(sHost, [97, 46, 98]), (sCL, [51])], [71, 69, 84]⟩]) := by decide
+-- … and the check does reject a wrong length (so `hck` is a real hypothesis)
+example : h2ClOk false auBlockCL 2 = false := by decide
+-- streamed conversion: the guard of the `_partial` theorem with a NON-empty body (content-length present)
+example : streamedFramed auReqCL [[71], [69, 84]] = true ∧
+    (h2ToH1Streamed true auBlockCL [[71], [69, 84]]).map Ref.parse =
+      some (some [⟨[80, 79, 83, 84], [47], sHttp11, [(sHost, [97, 46, 98]), (sCL, [51])], [71, 69, 84]⟩]) := by decide
+
+/-- DEFAULT ARGUMENT: `h2ClOk … (endOnTrailers := false)`.  The `_checked` theorems take `hck` with the default, i.e. for
+    a stream ended by a DATA frame.  For a stream ended by trailers hyper-h2 only checks "not more than announced": the
+    check passes with 2 of 3 announced bytes, and the content-length law is FALSE there (findings F-C06d/e) — this class
+    is outside the `_checked` theorems although their guard `hguard` does not mention it. -/
+example : h2ClOk false auBlockCL 2 true = true ∧ ¬ ClLaw auReqCL [71, 69] := by
+  refine ⟨by decide, fun h => ?_⟩
+  have := h (sCL, [51]) (by decide)
+  revert this; decide
+
+-- HTTP/1 -> HTTP/2: hypotheses of `h1_to_h2` on a request with Host, a connection-specific field and an upper-case name
+def auH1 : Req := ⟨[71, 69, 84], sHttp, [], [47], [(sHost, [97, 46, 98]), ([67, 111, 110, 110, 101, 99, 116, 105, 111, 110], [120]), ([88, 45, 65], [32, 49, 32])]⟩
+example : auH1.authority = [] ∧ (auH1.fields.all fun f => isToken f.1) = true := by decide
+example : parseH2Request true (formatH2Request auH1 false) =
+    some ⟨[71, 69, 84], sHttp, [97, 46, 98], [47], [([120, 45, 97], [49])]⟩ := by decide
+-- HTTP/2 -> HTTP/2: the parse-back of `h2_to_h2` on the block with cookies
+example : (parseH2Request true exBlock).map (fun r => parseH2Request true (formatH2Request r true) == some r) = some true := by decide
+-- trailers: the hypothesis of `h2_to_h2_trailers`, and a block it rejects (pseudo-header / upper-case name)
+example : h2ValidTrailers [([120, 45, 116], [49]), ([121], [])] = true := by decide
+example : h2ValidTrailers [(pStatus, [50, 48, 48])] = false ∧ h2ValidTrailers [([88], [49])] = false := by decide
+
+-- responses: every hypothesis of `h2_to_h1_response_single_message(_checked)` with a content-length and a body
+def auResp : Block := [(pStatus, [50, 48, 48]), (sCL, [50]), ([120], [49])]
+example : h2ValidResp auResp = true ∧ parseH2Response auResp = some (200, [(sCL, [50]), ([120], [49])]) ∧
+    validateHeaders [(sCL, [50]), ([120], [49])] false false (decide (100 ≤ 200 ∧ 200 ≤ 199) || (200 : Nat) = 204) = true ∧
+    h2ClOk false auResp 2 = true ∧ (asciiUpper [71, 69, 84] == sConnect) = false := by decide
+example : RespClLaw [(sCL, [50]), ([120], [49])] [97, 98] :=
+  resp_cl_law_from_h2_check auResp [97, 98] 200 _ (by decide) (by decide) (by decide) (by intro h; cases h)
+-- kept-alive (closeAfter = false): framed by content-length, exactly one response
+example : closeAfter [71, 69, 84] 200 [(sCL, [50]), ([120], [49])] = false ∧
+    (h2RespToH1 [71, 69, 84] auResp [97, 98]).map (Ref.parseResp false [[71, 69, 84]]) =
+      some (some [⟨sHttp11, 200, [79, 75], [(sCL, [50]), ([120], [49])], [97, 98]⟩]) := by decide
+
 end MitmVerif.Props.C06
